@@ -45,6 +45,7 @@ var (
 	ErrInvalidBlockTimestamp               = errors.New("invalid block timestamp")
 	ErrInvalidWarpSignature                = errors.New("invalid warp signature")
 	ErrInvalidSignatureType                = errors.New("invalid signature type")
+	ErrExpiredChunkCert                    = errors.New("expired chunk certificate")
 )
 
 type ChainState interface {
@@ -334,6 +335,12 @@ func (n *Node[T]) Verify(ctx context.Context, parent Block, block Block) error {
 			n.chainState,
 		); err != nil {
 			return fmt.Errorf("%w %s: %w", ErrInvalidWarpSignature, chunkCert.ChunkID, err)
+		}
+		// A block must not reference a chunk that expired before its timestamp.
+		// Replay protection only tracks a chunk until its expiry, so accepting an
+		// expired chunk certificate would allow the same chunk to be included again.
+		if chunkCert.Expiry < block.Timestamp {
+			return fmt.Errorf("%w: chunk %s expiry %d < block timestamp %d", ErrExpiredChunkCert, chunkCert.ChunkID, chunkCert.Expiry, block.Timestamp)
 		}
 	}
 
